@@ -1,6 +1,5 @@
 /-
-`render` is injective on safe containers, hence container `==` (which compares rendered text) decides
-equality of content there.
+`render` (`FIXContainer.__str__`) is injective on safe containers.
 -/
 import AsyncFix.Lemmas.ContainerRenderInj
 namespace AsyncFix.Model.Container
@@ -112,13 +111,9 @@ theorem inj_fields (c₁ : List (Str × Val)) : ∀ c₂ : List (Str × Val),
       rw [et, ev', er]
 end
 
-/-- container `==` on safe containers: True exactly when the contents are the same -/
-theorem eq_iff_of_safe (a b : Cont) (ha : Cont.safe a = true) (hb : Cont.safe b = true) :
-    eq a b = true ↔ a = b := by
-  constructor
-  · intro h
-    have : render a = render b := by simpa [eq] using h
-    exact inj_fields a b ha hb this
-  · intro h; subst h; simp [eq]
+/-- `__str__` is unambiguous on safe containers (since fix 7c684d5 `==` no longer depends on it) -/
+theorem render_injective_on_safe (a b : Cont) (ha : Cont.safe a = true) (hb : Cont.safe b = true)
+    (h : render a = render b) : a = b :=
+  inj_fields a b ha hb h
 
 end AsyncFix.Model.Container
